@@ -1,4 +1,4 @@
-import HcipyVerif.Lemmas.GridEq
+import HcipyVerif.Lemmas.GridMut
 
 /-!
 # C10 — Grid identity: equality is an equivalence consistent with hashing
@@ -119,6 +119,47 @@ theorem ne_of_points_ne (a b : Grid) (h : a.coords.points ≠ b.coords.points) :
 theorem ne_of_regular_axis_ne (s : System) (a b : List RegAxis) (w w' : Weights) (h : a ≠ b) :
     (Grid.mk s (.regular a) w).eq (Grid.mk s (.regular b) w') = false :=
   ne_of_coords_ne _ _ (by simpa using h)
+
+/-! ## In-place mutation changes the identity accordingly -/
+
+/-- **Shifting** by a vector with a non-zero component along an axis that carries at least one
+coordinate makes the grid unequal to its former self (and to every earlier copy, by `eq_trans`). -/
+theorem shift_changes (g : Grid) (b : List Rat) (i : Nat) (v : Rat) (hv : g.coords.axisHas i v)
+    (hb : ∃ bi, b[i]? = some bi ∧ bi ≠ 0) : (g.shift b).eq g = false ∧ g.eq (g.shift b) = false := by
+  have h := Coords.shift_ne g.coords b i v hv hb
+  exact ⟨ne_of_coords_ne _ _ h, ne_of_coords_ne _ _ (Ne.symm h)⟩
+
+/-- **Scaling** a Cartesian grid by factors with `f_i ≠ 1` along an axis that carries a non-zero
+coordinate value changes its identity; the scalar form is the case `factors = replicate ndim s`. -/
+theorem scale_changes (g g' : Grid) (s : ScaleArg) (hc : g.system = .cartesian) (h : g.scale s = some g')
+    (i : Nat) (v : Rat) (hv : g.coords.axisHas i v) (hv0 : v ≠ 0)
+    (hf : ∃ fi, (s.factors g.coords.ndim)[i]? = some fi ∧ fi ≠ 1) : g'.eq g = false ∧ g.eq g' = false := by
+  have hne := Coords.scale_ne g.coords _ i v hv hv0 hf
+  simp only [Grid.scale, hc] at h
+  cases hw : g.getWeights with
+  | none => simp [hw] at h
+  | some w =>
+    simp only [hw, Option.map_some, Option.some.injEq] at h
+    subst h
+    exact ⟨ne_of_coords_ne _ _ hne, ne_of_coords_ne _ _ (Ne.symm hne)⟩
+
+/-- **Reversing** changes the identity as soon as one axis is not symmetric under reversal … -/
+theorem reverse_changes (g : Grid) (i : Nat) (h : g.coords.axisAsym i) :
+    g.reverse.eq g = false ∧ g.eq g.reverse = false := by
+  have hne := Coords.reverse_ne g.coords i h
+  exact ⟨ne_of_coords_ne _ _ hne, ne_of_coords_ne _ _ (Ne.symm hne)⟩
+
+/-- … and reversing twice restores it (so the hash returns to its old value as well). -/
+theorem reverse_reverse_eq (g : Grid) (h : g.coords.WF) :
+    g.reverse.reverse.eq g = true ∧ g.reverse.reverse.hashInput = g.hashInput := by
+  have : g.reverse.reverse.coords = g.coords := Coords.reverse_reverse g.coords
+  refine ⟨?_, by simp [Grid.hashInput, Grid.reverse, Coords.reverse_reverse]⟩
+  simp only [Grid.eq, Grid.reverse, Bool.and_eq_true, decide_eq_true_eq, true_and]
+  simp only [Grid.reverse] at this
+  rw [this]; exact Coords.eq_self h
+
+example : (Coords.separated [[0, 1], [5]]).axisHas 0 1 := ⟨[0, 1], rfl, by simp⟩
+example : (Coords.regular [⟨1 / 2, 3, 0⟩]).axisAsym 0 := ⟨⟨1 / 2, 3, 0⟩, rfl, by norm_num⟩
 
 /-! ## Value semantics of the store: earlier copies are untouched -/
 
